@@ -21,6 +21,7 @@ type vProdCfg struct {
 	version           KafkaVersion
 	useClose          bool
 	closeAfter        int // stop submitting and close after this many messages (0: all of them)
+	class             string // configuration part of the failure class
 	holdFirst         bool // the first produce request is answered only after everything was submitted
 }
 
@@ -116,6 +117,10 @@ func vRunProducer(c vProdCfg) *vProdResult {
 		p.Input() <- m
 	}
 	close(cl.release)
+	defer func() {
+		// the failure class names the configuration and the fault kinds that actually occurred
+		vClass(c.class + ",faults=" + cl.faultKinds)
+	}()
 	if c.useClose {
 		// Close() drains Successes itself and returns the collected errors
 		res.closeErr = p.Close()
